@@ -1,7 +1,13 @@
 (** C11 — property theorems only.  Each is closed by [exact] of a lemma in Proofs*.v and followed
-    by [Print Assumptions]. *)
-From V Require Import Base.Util C11.Model C11.Spec C11.Proofs1 C11.Proofs2 C11.Proofs3.
-From Coq Require Import Permutation.
+    by [Print Assumptions].  Definitions used in the statements: Model.v (the code), Spec.v (the
+    specification side), Proofs3.v (entries, kind_out: closed form of the output), Proofs4.v
+    (outcome_of), Proofs5.v (case_ok), Proofs6.v (item_pos_le). *)
+From V Require Import Base.Util C11.Model C11.Spec C11.Corr C11.Proofs1 C11.Proofs2 C11.Proofs3 C11.Proofs4 C11.Proofs5 C11.Proofs6.
+From Coq Require Import Permutation Sorted.
+
+Theorem C11_no_extension_survives : forall doc out, resolve doc = inr out -> forall e, ~ In (IExt e) out.
+Proof. exact no_extension_survives. Qed.
+Print Assumptions C11_no_extension_survives.
 
 Theorem C11_success_form : forall doc out,
   resolve doc = inr out ->
@@ -10,3 +16,119 @@ Theorem C11_success_form : forall doc out,
         ++ flat_map (fun k => map (fun x => IDef (merge_of k x)) (sort_by_pos (entries k doc))) kinds_in_output_order.
 Proof. exact resolve_ok_form. Qed.
 Print Assumptions C11_success_form.
+
+Theorem C11_resolve_exact : forall doc out,
+  wf_doc doc = true -> resolve doc = inr out ->
+  exists defs, out = map IDir (dirdefs doc) ++ map IDef defs /\
+               Permutation defs (map (fun d => merge_ref d (exts_of (d_kind d) (d_name d) doc)) (all_defs doc)).
+Proof. exact resolve_exact. Qed.
+Print Assumptions C11_resolve_exact.
+
+Theorem C11_merge_components : forall k d es,
+  let m := merge_of k (d, es) in
+  d_kind m = d_kind d /\ d_name m = d_name d /\ d_pos m = d_pos d /\ d_keep m = d_keep d /\
+  d_dirs m = d_dirs d ++ flat_map e_dirs es /\
+  d_impls m = (if has_impls k then d_impls d ++ flat_map e_impls es else d_impls d) /\
+  d_members m = (if has_members k then d_members d ++ flat_map e_members es else d_members d).
+Proof. exact merge_components. Qed.
+Print Assumptions C11_merge_components.
+
+Theorem C11_unextended_unchanged : forall doc out d,
+  resolve doc = inr out -> In (IDef d) doc -> exts_of (d_kind d) (d_name d) doc = [] -> In (IDef d) out.
+Proof. exact unextended_unchanged. Qed.
+Print Assumptions C11_unextended_unchanged.
+
+Theorem C11_one_definition : forall doc out,
+  resolve doc = inr out ->
+  forall k n, length (defs_of k n out) = length (defs_of k n doc) /\ length (defs_of k n doc) <= 1.
+Proof. exact one_definition. Qed.
+Print Assumptions C11_one_definition.
+
+Theorem C11_output_order : forall doc out,
+  resolve doc = inr out ->
+  out = map IDir (dirdefs doc) ++ flat_map (fun k => kind_out k doc) kinds_in_output_order /\
+  forall k, Sorted item_pos_le (kind_out k doc) /\
+            forall it, In it (kind_out k doc) -> exists d, it = IDef d /\ d_kind d = k.
+Proof. exact output_order. Qed.
+Print Assumptions C11_output_order.
+
+Theorem C11_error_iff : forall doc,
+  (exists e, resolve doc = inl e) <-> dup_original doc \/ orphan_extension doc.
+Proof. exact resolve_error_iff. Qed.
+Print Assumptions C11_error_iff.
+
+Theorem C11_success_iff : forall doc,
+  (exists out, resolve doc = inr out) <-> ~ dup_original doc /\ ~ orphan_extension doc.
+Proof. exact resolve_ok_iff. Qed.
+Print Assumptions C11_success_iff.
+
+Theorem C11_dup_error_located : forall doc elem nm p1 p2,
+  resolve doc = inl (DupOriginal elem nm p1 p2) ->
+  exists pre d1 mid d2 post,
+    doc = pre ++ IDef d1 :: mid ++ IDef d2 :: post /\
+    d_kind d2 = d_kind d1 /\ d_name d2 = d_name d1 /\
+    elem = name_of_elem (d_kind d1) /\ nm = unwrap_or_default (d_name d1) /\
+    p1 = d_pos d1 /\ p2 = d_pos d2 /\
+    ~ dup_original (pre ++ IDef d1 :: mid).
+Proof. exact dup_error_located. Qed.
+Print Assumptions C11_dup_error_located.
+
+Theorem C11_orphan_error_located : forall doc elem p,
+  resolve doc = inl (NoOriginal elem p) ->
+  ~ dup_original doc /\
+  exists pre k post x,
+    kinds_in_output_order = pre ++ k :: post /\ (forall k', In k' pre -> ~ orphan_k k' doc) /\
+    first_orphan k doc x /\ elem = name_of_elem k /\ p = e_pos x.
+Proof. exact orphan_error_located. Qed.
+Print Assumptions C11_orphan_error_located.
+
+Theorem C11_error_variant : forall doc e,
+  resolve doc = inl e ->
+  match e with DupOriginal _ _ _ _ => dup_original doc
+             | NoOriginal _ _ => ~ dup_original doc /\ orphan_extension doc end.
+Proof. exact error_variant. Qed.
+Print Assumptions C11_error_variant.
+
+Theorem C11_model_meets_spec : forall doc, wf_doc doc = true -> spec_ok doc (outcome_of (resolve doc)).
+Proof. exact model_spec_ok. Qed.
+Print Assumptions C11_model_meets_spec.
+
+Theorem C11_permutation_invariant : forall doc doc',
+  Permutation doc doc' -> (forall k n, exts_of k n doc = exts_of k n doc') ->
+  ((exists e, resolve doc = inl e) <-> (exists e, resolve doc' = inl e)) /\
+  forall out out', resolve doc = inr out -> resolve doc' = inr out' -> Permutation out out'.
+Proof. exact permutation_invariant. Qed.
+Print Assumptions C11_permutation_invariant.
+
+Theorem C11_position_and_file_independent : forall doc doc',
+  Permutation (map erase_item doc) (map erase_item doc') ->
+  (forall k n, map erase_ext (exts_of k n doc) = map erase_ext (exts_of k n doc')) ->
+  ((exists e, resolve doc = inl e) <-> (exists e, resolve doc' = inl e)) /\
+  forall out out', resolve doc = inr out -> resolve doc' = inr out' ->
+                   Permutation (map erase_item out) (map erase_item out').
+Proof. exact position_independent. Qed.
+Print Assumptions C11_position_and_file_independent.
+
+Theorem C11_files_concatenate : forall files builtins,
+  resolve_files files builtins = resolve (concat files ++ builtins).
+Proof. exact files_concatenate. Qed.
+Print Assumptions C11_files_concatenate.
+
+Theorem C11_holds_sound : forall c, holds c = true -> case_ok c.
+Proof. exact holds_sound. Qed.
+Print Assumptions C11_holds_sound.
+
+Theorem C11_spec_ok_b_sound : forall doc o, spec_ok_b doc o = true -> spec_ok doc o.
+Proof. exact spec_ok_b_sound. Qed.
+Print Assumptions C11_spec_ok_b_sound.
+
+Theorem C11_agree_sound : forall files builtins r,
+  agree (Case files builtins r) = true ->
+  match r with
+  | ROk out => resolve_files files builtins = inr out
+  | RErr e dg => resolve_files files builtins = inl e /\ dg = Some (diag_pos e)
+  | RPanic => False
+  end.
+Proof. exact agree_sound. Qed.
+Print Assumptions C11_agree_sound.
+
